@@ -3,7 +3,7 @@
 demonstration fails), run the registered quick check of the property it breaks (and, with
 --all, every other check), undo the change, and record which checks caught it.
 
-usage: tools/run_seeded.py [--all] [id ...]
+usage: tools/run_seeded.py [--all] [--isolated [--tag=X]] [--results=FILE] [id ...]
 """
 import json, os, subprocess, sys, time
 HERE = os.path.dirname(os.path.abspath(__file__))
@@ -12,10 +12,11 @@ SEEDED = os.path.join(VERIF, "seeded")
 REPO = "/repo"
 # --isolated: work on a scratch worktree of /repo and a private copy of /verif, so that checks of the
 # unchanged tree can run at the same time (equivalent to apply / run / undo on /repo itself)
+TAG = ([a[6:] for a in sys.argv if a.startswith("--tag=")] or [""])[0]
 if "--isolated" in sys.argv:
-    REPO = "/tmp/seeded_repo"
+    REPO = "/tmp/seeded_repo" + TAG
     subprocess.run("git -C /repo worktree remove --force %s 2>/dev/null; git -C /repo worktree add -q %s HEAD" % (REPO, REPO), shell=True)
-    PRIV = "/tmp/seeded_verif"
+    PRIV = "/tmp/seeded_verif" + TAG
     subprocess.run("rm -rf %s && cp -r %s %s && rm -rf %s/replays %s/work && mkdir -p %s/work" % (PRIV, VERIF, PRIV, PRIV, PRIV, PRIV), shell=True)
     CHECK_DIR = PRIV
     os.environ["VERIF_REPO"] = REPO
@@ -37,7 +38,7 @@ def main():
     args = [a for a in sys.argv[1:] if not a.startswith("--")]
     run_all = "--all" in sys.argv
     ids = args or sorted(d for d in os.listdir(SEEDED) if os.path.isfile(os.path.join(SEEDED, d, "meta.json")))
-    res_path = os.path.join(SEEDED, "RESULTS.json")
+    res_path = ([a[10:] for a in sys.argv if a.startswith("--results=")] or [os.path.join(SEEDED, "RESULTS.json")])[0]
     results = json.load(open(res_path)) if os.path.exists(res_path) else {}
     props = ["C%02d" % i for i in range(1, 19)]
     # evidence files must describe runs on the unchanged tree: keep them aside while changes are applied
